@@ -130,7 +130,11 @@ def check(tier, seed, runs, workers, secs):
         out = os.path.join(work, "chunk-%d.json" % start)
         # every fourth worker process is bound to one CPU before it builds or compiles anything
         one_cpu = ["--one-cpu"] if (start // max(1, cfg["chunk"])) % 4 == 3 else []
-        rc, text = run_chunk(binary, ["run", "--seed", str(seed), "--start", str(start), "--count", str(n)] + V.hash_args(tier) + deep + one_cpu, out)
+        args = ["run", "--seed", str(seed), "--start", str(start), "--count", str(n)] + V.hash_args(tier) + deep + one_cpu
+        rc, text = run_chunk(binary, args, out)
+        if isinstance(rc, str) and rc.startswith("timeout"):
+            # a stalled machine is not a verdict: once more, before this counts as a harness error
+            rc, text = run_chunk(binary, args, out)
         if rc != 0 or not os.path.exists(out):
             crashes.append(dict(start=start, count=n, rc=rc, output=text[-2000:]))
             return None
